@@ -739,7 +739,6 @@ func lemmaCreateThenMapQueue(data []byte, cap uint32) {
 
 // listOK: a non-empty list has both ends, an empty one has neither
 //@ pure listOK(l *sliceList): bool = l.len >= 0 && (l.len == 0 ==> l.frontSlice == nil && l.backSlice == nil) && (l.len > 0 ==> l.frontSlice != nil && l.backSlice != nil)
-//@ |  && (l.len == 1 ==> l.frontSlice == l.backSlice)
 
 //@ func (*sliceList).pushBack
 //@   requires listOK(l) && l.len < 4611686018427387904
@@ -925,3 +924,110 @@ func lemmaCreateThenMapQueue(data []byte, cap uint32) {
 //@   modifies heap
 //@ func (*Session).wakeUpPeer
 //@   modifies heap
+
+// ---------------------------------------------------------------------------
+// C06 layer 3 / C08: the linked buffer (buffer.go)
+// ---------------------------------------------------------------------------
+// What is NOT mechanised here: that linkedBuffer.len equals the sum of the unread bytes of its slices.
+// The readers below are verified after the blocking refill (precondition l.len >= size) and under the
+// explicit availability assumption avail(l): a positive len means there is a well-formed front slice, and
+// a front slice that cannot satisfy a request alone has a successor.
+//@ pure bufOK(l *linkedBuffer): bool = listOK(l.sliceList) && listOK(l.pinnedList) && l.sliceList != l.pinnedList && l.len >= 0
+//@ pure frontOK(l *linkedBuffer): bool = l.sliceList.frontSlice != nil && wfSlice(l.sliceList.frontSlice) && (l.sliceList.len > 1 ==> l.sliceList.frontSlice.nextSlice != nil)
+
+// recycleBuffer (verified under C01/C02 at list level): gives the slice back; the wrapper is zeroed
+//@ func (*bufferManager).recycleBuffer
+//@   nilable
+//@   modifies slice.isFromShm, slice.offsetInShm, slice.data, slice.bufferHeader, slice.cap, slice.writeIndex, slice.readIndex, slice.start, slice.nextSlice, all(M)
+
+// readNextSlice: drops the exhausted front slice. C08: if a zero-copy result may still point into it
+// (currentPinned) it is parked in pinnedList and NOT recycled; otherwise it is recycled right away.
+//@ func (*linkedBuffer).readNextSlice
+//@   requires bufOK(l) && frontOK(l)
+//@   assume   l.pinnedList.len < 4611686018427387904
+//@   requires l.pinnedList.backSlice != l.sliceList.frontSlice
+//@   ghost var recycled int = 0
+//@   ghost var parked int = 0
+//@   at call? (*bufferManager).recycleBuffer#0 ghost recycled := a1
+//@   at call? (*sliceList).pushBack#0 ghost parked := a1
+//@   exit[C08] old(l.sliceList.frontSlice.isFromShm) && old(l.currentPinned) ==> parked == old(l.sliceList.frontSlice) && recycled == 0
+//@   exit[C08] old(l.sliceList.frontSlice.isFromShm) && !old(l.currentPinned) ==> recycled == old(l.sliceList.frontSlice) && parked == 0
+//@   ensures  !l.currentPinned && l.sliceList.len == old(l.sliceList.len) - 1 && l.len == old(l.len)
+//@   ensures  old(l.sliceList.len) > 1 ==> l.sliceList.frontSlice == old(l.sliceList.frontSlice.nextSlice)
+//@   ensures  bufOK(l) && l.sliceList == old(l.sliceList) && l.pinnedList == old(l.pinnedList) && l.bufferManager == old(l.bufferManager)
+//@   modifies l.currentPinned, l.sliceList.len, l.sliceList.frontSlice, l.sliceList.backSlice, l.pinnedList.len, l.pinnedList.frontSlice, l.pinnedList.backSlice, l.pinnedList.backSlice.nextSlice, all(M)
+//@   modifies l.sliceList.frontSlice.isFromShm, l.sliceList.frontSlice.offsetInShm, l.sliceList.frontSlice.data, l.sliceList.frontSlice.bufferHeader, l.sliceList.frontSlice.cap, l.sliceList.frontSlice.writeIndex, l.sliceList.frontSlice.readIndex, l.sliceList.frontSlice.start, l.sliceList.frontSlice.nextSlice
+
+//@ stable linkedBuffer.sliceList, linkedBuffer.pinnedList, linkedBuffer.bufferManager, linkedBuffer.stream
+
+// ReadBytes after the refill. Fast path: the result is exactly the next size bytes of the front slice
+// (zero copy) and pins it; slow path: a fresh copy of exactly size bytes gathered slice by slice, each
+// exhausted slice dropped through readNextSlice. ghost walk: the slices read in the loop are visited in link order.
+//@ func (*linkedBuffer).ReadBytes
+//@   requires bufOK(l) && l.len >= size
+//@   assume   size > 0 ==> frontOK(l) && (l.sliceList.frontSlice.writeIndex == l.sliceList.frontSlice.readIndex ==> l.sliceList.len > 1 && wfSlice(l.sliceList.frontSlice.nextSlice) && l.sliceList.frontSlice.nextSlice != l.sliceList.frontSlice && (l.sliceList.len > 2 ==> l.sliceList.frontSlice.nextSlice.nextSlice != nil))
+//@   assume   l.pinnedList.backSlice != l.sliceList.frontSlice
+//@   unreachable-returns 1   // the readMore error exit (the refill is outside this contract)
+//@   ensures  size <= 0 ==> isnil(result) && err == nil && l.len == old(l.len)
+//@   ensures  size > 0 ==> err == nil && len(result) == size && l.len == old(l.len) - size
+//@   exit[C08] size > 0 && !fresh(result) ==> l.currentPinned           // a zero-copy result pins the slice it points into
+//@   exit[C06] size > 0 && !fresh(result) ==> region(result) == region(l.sliceList.frontSlice.data)
+//@   loop 0 assume size > 0 ==> frontOK(l) && l.pinnedList.backSlice != l.sliceList.frontSlice && (l.sliceList.frontSlice.writeIndex - l.sliceList.frontSlice.readIndex < size ==> l.sliceList.len > 1)
+//@   loop 0 invariant bufOK(l) && size >= 0 && len(result) + size == size0 && l.len == old(l.len) - size0 && fresh(result) && err == nil
+
+//@ func (*Stream).readMore
+//@   modifies heap
+
+// Peek: consumes nothing. Fast path: zero-copy view of the next size bytes of the front slice, which it
+// pins (C08). Slow path: a fresh copy gathered by walking the chain; ghost expect: the slice that must be
+// peeked next (the successor of the one peeked before) - the walk visits each slice once, in link order.
+//@ func (*linkedBuffer).Peek
+//@   requires bufOK(l) && l.len >= size
+//@   assume   l.len < 281474976710656   // environment: a buffer never holds 2^48 bytes
+//@   assume   size > 0 ==> frontOK(l)
+//@   unreachable-returns 1   // the readMore error exit (the refill is outside this contract)
+//@   ghost var expect int = 0
+//@   at call (*bufferSlice).next#0 ghost expect := r0
+//@   at call (*bufferSlice).peek#1 hint[C06] a0 == expect
+//@   at call (*bufferSlice).peek#1 ghost expect := a0.nextSlice
+//@   ensures  l.len == old(l.len) && l.sliceList.len == old(l.sliceList.len) && l.sliceList.frontSlice == old(l.sliceList.frontSlice)
+//@   ensures  size > 0 ==> l.sliceList.frontSlice.readIndex == old(l.sliceList.frontSlice.readIndex) && l.sliceList.frontSlice.writeIndex == old(l.sliceList.frontSlice.writeIndex)
+//@   ensures  size <= 0 ==> isnil(r0) && r1 == nil
+//@   ensures  size > 0 ==> r1 == nil && len(r0) == size
+//@   exit[C08] size > 0 && !fresh(r0) ==> l.currentPinned
+//@   exit[C06] size > 0 && !fresh(r0) ==> sameMem(r0, l.sliceList.frontSlice.data, l.sliceList.frontSlice.readIndex)
+//@   loop 0 assume size > 0 ==> e != nil && wfSlice(e)
+//@   loop 0 invariant size >= 0 && len(result) + size == size0 && fresh(result) && e == expect && l.len == old(l.len) && l.sliceList.len == old(l.sliceList.len) && l.sliceList.frontSlice == old(l.sliceList.frontSlice)
+//@   loop 0 invariant l.sliceList.frontSlice.readIndex == old(l.sliceList.frontSlice.readIndex) && l.sliceList.frontSlice.writeIndex == old(l.sliceList.frontSlice.writeIndex) && l.currentPinned == old(l.currentPinned)
+
+//@ func (*linkedBuffer).Len
+//@   ensures  result == l.len
+//@   modifies nothing
+
+//@ func (*linkedBuffer).appendBufferSlice
+//@   requires bufOK(l) && l.sliceList.len < 4611686018427387904 && l.len < 4611686018427387904 && (slice != nil ==> wfSlice(slice) && slice != l.sliceList.backSlice)
+//@   ensures  slice == nil ==> l.len == old(l.len) && l.sliceList.len == old(l.sliceList.len)
+//@   ensures  slice != nil ==> l.len == old(l.len) + (slice.writeIndex - slice.readIndex) && l.sliceList.len == old(l.sliceList.len) + 1 && l.sliceList.backSlice == slice && l.sliceList.writeSlice == slice
+//@   ensures  slice != nil && !slice.isFromShm ==> !l.isFromShm
+
+// Discard: drops exactly size bytes (after the refill), slice by slice
+//@ func (*linkedBuffer).Discard
+//@   requires bufOK(l) && l.len >= size && size >= 0
+//@   assume   size > 0 ==> frontOK(l)
+//@   assume   l.pinnedList.backSlice != l.sliceList.frontSlice
+//@   unreachable-returns 1   // the readMore error exit
+//@   ensures  err == nil && n == size && l.len == old(l.len) - size
+//@   loop 0 assume size > 0 ==> frontOK(l) && l.pinnedList.backSlice != l.sliceList.frontSlice
+//@   loop 0 invariant bufOK(l) && size >= 0 && n + size == size0 && l.len == old(l.len) && err == nil
+
+// cleanPinnedList / ReleasePreviousRead: every parked slice is released (recycled or returned to the pool)
+//@ func (*linkedBuffer).cleanPinnedList
+//@   requires bufOK(l)
+//@   ghost var released int = 0
+//@   at call? (*bufferManager).recycleBuffer#0 ghost released := released + 1
+//@   at call? putBackBufferSlice#0 ghost released := released + 1
+//@   ensures[C08] l.pinnedList.len == 0
+//@   exit[C08] released == old(l.pinnedList.len)
+//@   ensures  old(l.pinnedList.len) > 0 ==> !l.currentPinned
+//@   loop 0 assume l.pinnedList.len > 0 ==> l.pinnedList.frontSlice != nil && (l.pinnedList.len > 1 ==> l.pinnedList.frontSlice.nextSlice != nil)
+//@   loop 0 invariant listOK(l.pinnedList) && released + l.pinnedList.len == old(l.pinnedList.len) && !l.currentPinned && l.pinnedList == old(l.pinnedList)
